@@ -961,7 +961,12 @@ class ExecuteScriptHelper(FnContract):
 
     callable_model = staticmethod(host_callable_model)
 
-    slow_cases = ('stmt-include',)     # verified in the thorough tier only (tens of minutes of path exploration)
+    # the include arm is NOT proved: its symbolic run (242 paths, 1693 obligations, ~20 min on 12 cores) leaves 488 obligations
+    # undecided (quantified heap frames across the nested helper call time out in z3 and cvc5); it is kept out of both
+    # registered tiers and a bounded native stand-in decides the include clauses (props/C17.include_bounded)
+    slow_cases = ('stmt-include',)
+    slow_reason = ('the include arm: 1199 of 1693 obligations discharge, the rest time out; a bounded native include tree '
+                   'stands in (labelled bounded)')
 
     def cases(self):
         """one verification job per statement kind (the split is made at the head of the statement loop)"""
@@ -1542,7 +1547,10 @@ model = {'statements': [
     {'jump': {'label': 'lab'}},
     {'label': 'end'},
     {'return': {'expr': {'variable': 'out'}}}]}
-got = execute_script(model, {'globals': {}, 'maxStatements': 1000})
+try:
+    got = execute_script(model, {'globals': {}, 'maxStatements': 1000})
+except Exception as exc:
+    got = 'EXC ' + type(exc).__name__ + ': ' + str(exc)
 if got != 'ABA':
     bad.append({'program': 'jump to a duplicated label', 'expected': 'ABA (first label of that name)', 'observed': repr(got)})
 run('jumpif (objectNew()) skip\\nreturn 1\\nskip:\\nreturn 2\\n', expect=2.0, what='an empty object is truthy in a jump condition')
